@@ -102,6 +102,11 @@ pub enum Action {
     Stop { node: u32 },
     /// Enter the fair suffix (heal everything, restart everyone, stop injecting faults).
     Suffix,
+    /// "Hidden commit": from now on commit votes reach only correct node `to`; every other copy is
+    /// lost.  As soon as `to` holds a newer commit certificate (it may have finalized a block
+    /// nobody else knows to be final) it is cut off from the rest, its messages in flight are
+    /// lost, and commit votes flow normally again.  `Heal` ends the episode in any case.
+    HideCommit { to: u32 },
 }
 
 pub fn tag_of(node: usize, inc: u64) -> u64 {
@@ -150,6 +155,8 @@ pub struct Cluster {
     pub next_msg_id: u64,
     /// Partition group per node; messages between different groups are held.
     pub group: Vec<u8>,
+    /// Active hidden-commit episode: (the only receiver of commit votes, its commit certificate view at the start).
+    pub hide: Option<(usize, Option<u64>)>,
     pub adversary: Adversary,
     pub dctx: ctx::Ctx,
     pub sim_ms: u64,
@@ -277,6 +284,7 @@ impl Cluster {
             draining: false,
             obs,
             sent_since: (0..n).map(|_| vec![]).collect(),
+            hide: None,
             outs,
             cfg,
         }
@@ -451,6 +459,19 @@ impl Cluster {
                     };
                     self.nodes[i].view = Some(s.view.0);
                     self.nodes[i].deadline = s.view_timeout;
+                    self.nodes[i].snap = Some(s.clone());
+                    if let Some((h, base)) = self.hide {
+                        let hc = s.high_commit_qc.as_ref().map(|q| q.view().number.0);
+                        if h == i && hc > base {
+                            self.hide = None;
+                            self.hub.fault("hidden_commit");
+                            self.hub.ev(format!("n{i} alone holds the commit certificate of view {hc:?}: cut off, its messages in flight are lost"));
+                            for (j, g) in self.group.iter_mut().enumerate() {
+                                *g = (j == i) as u8;
+                            }
+                            self.inflight.retain(|m| m.from != i);
+                        }
+                    }
                     self.hub.on_snapshot(i, inc, s, &durable);
                     let sent = std::mem::take(&mut self.sent_since[i]);
                     self.hub.on_model_step(i, inc, s, &sent, self.cfg.max_payload);
@@ -484,6 +505,9 @@ impl Cluster {
                     self.adversary.observe(m);
                     for to in 0..self.n() {
                         if self.is_byz(to) {
+                            continue;
+                        }
+                        if self.hide.is_some_and(|(h, _)| h != to) && is_commit_vote(m) {
                             continue;
                         }
                         self.next_msg_id += 1;
@@ -646,6 +670,7 @@ impl Cluster {
                 self.hub.ev(format!("cut {:?}", self.group));
             }
             Action::Heal => {
+                self.hide = None;
                 self.group.iter_mut().for_each(|g| *g = 0);
                 self.hub.ev("heal".into());
             }
@@ -679,6 +704,18 @@ impl Cluster {
                         self.deliver_msg(to, None, msg);
                     }
                 }
+            }
+            Action::HideCommit { to } => {
+                let correct: Vec<usize> = (0..self.n()).filter(|i| !self.is_byz(*i)).collect();
+                if correct.is_empty() || self.hide.is_some() {
+                    return;
+                }
+                let to = correct[*to as usize % correct.len()];
+                let base = self.nodes[to].snap.as_ref().and_then(|s| s.high_commit_qc.as_ref().map(|q| q.view().number.0));
+                self.hub.ev(format!("from now on commit votes reach only n{to} (until it holds a newer commit certificate than {base:?})"));
+                // Votes already in flight to others are lost too.
+                self.inflight.retain(|m| m.to == to || !is_commit_vote(&m.msg));
+                self.hide = Some((to, base));
             }
             Action::Stop { node } => {
                 let i = (*node % n) as usize;
@@ -799,6 +836,10 @@ impl Cluster {
 }
 
 /// `describe` evaluates `view()` of justifications, which overflows for absurd values.
+fn is_commit_vote(m: &validator::Signed<validator::ConsensusMsg>) -> bool {
+    matches!(&m.msg, validator::ConsensusMsg::V2(validator::v2::ChonkyMsg::ReplicaCommit(_)))
+}
+
 pub fn describe_safe(msg: &validator::Signed<validator::ConsensusMsg>) -> String {
     let validator::ConsensusMsg::V2(m) = &msg.msg;
     let absurd = match m {
